@@ -434,6 +434,30 @@ impl SymbolTable {
     }
 }
 
+/// Verification hooks (cargo feature `oq3_verif`, off by default): drive and observe the
+/// scope stack without source text.
+#[cfg(feature = "oq3_verif")]
+impl SymbolTable {
+    pub fn verif_enter_scope(&mut self, scope_type: ScopeType) {
+        self.enter_scope(scope_type)
+    }
+
+    pub fn verif_scope_depth(&self) -> usize {
+        self.number_of_scopes()
+    }
+
+    pub fn verif_current_scope_type(&self) -> ScopeType {
+        self.current_scope_type()
+    }
+
+    pub fn verif_standard_library_gates(&mut self) -> Vec<String> {
+        self.standard_library_gates()
+            .into_iter()
+            .map(|name| name.to_string())
+            .collect()
+    }
+}
+
 impl Default for SymbolTable {
     fn default() -> Self {
         Self::new()
